@@ -69,6 +69,12 @@ pub struct Profile {
     pub partial_ignore_permille: u32,
     pub migrate_permille: u32,
     pub unverified_permille: u32,
+    /// after this fraction (permille) of the run, connect every pair with a sync session
+    pub connect_all_at_permille: Option<u32>,
+    /// which small decoders IdFuzz exercises (see World::id_fuzz)
+    pub id_fuzz_kinds: Vec<u8>,
+    /// generate ObjType::Table objects (legacy type; quarantined: see known findings)
+    pub tables: bool,
     /// allow the per-run swarm to zero out families
     pub swarm: bool,
     /// long single-actor chains (to reach clock caches / slab splits)
@@ -140,6 +146,9 @@ impl Default for Profile {
             partial_ignore_permille: 0,
             migrate_permille: 0,
             unverified_permille: 100,
+            connect_all_at_permille: None,
+            id_fuzz_kinds: (0..13).collect(),
+            tables: false,
             swarm: true,
             long_chain_permille: 30,
             bloom_fp: vec![0],
@@ -223,7 +232,7 @@ pub fn gen_edit(rng: &mut Rng, p: &Profile, w: &[u32]) -> EditOp {
         1 => EditOp::PutObj {
             obj: o,
             key: rng.next_u32(),
-            ty: *rng.pickv(&[OT::Map, OT::List, OT::Text, OT::Text, OT::List, OT::Table]),
+            ty: if p.tables && rng.chance(120) { OT::Table } else { *rng.pickv(&[OT::Map, OT::List, OT::Text, OT::Text, OT::List]) },
         },
         2 => EditOp::Insert {
             obj: os,
@@ -420,7 +429,25 @@ pub fn gen_run(seed: u64, p: &Profile) -> (Cfg, Vec<Ev>) {
     }
     // in long-chain runs most activity is on one replica
     let hot = rng.below(rmax) as u8;
-    for _ in 0..n_events {
+    let connect_at = p.connect_all_at_permille.map(|pm| n_events * pm as usize / 1000);
+    for ei in 0..n_events {
+        if Some(ei) == connect_at {
+            for a in 0..replicas {
+                for b in (a + 1)..replicas {
+                    // a chain is always connected; further pairs sometimes
+                    if b == a + 1 || rng.chance(400) {
+                        evs.push(Ev::Connect {
+                            a,
+                            b,
+                            restore_a: false,
+                            restore_b: false,
+                            ro_a: p.w_set_ro > 0 && rng.chance(300),
+                            ro_b: p.w_set_ro > 0 && rng.chance(300),
+                        });
+                    }
+                }
+            }
+        }
         let r = if long_chain && rng.chance(700) { hot } else { rng.below(rmax) as u8 };
         let r2 = rng.below(rmax) as u8;
         let ev = match rng.weighted(&fam) {
@@ -518,7 +545,7 @@ pub fn gen_run(seed: u64, p: &Profile) -> (Cfg, Vec<Ev>) {
                     keep_actor: false,
                 },
             },
-            _ => Ev::IdFuzz { r, what: rng.below(16) as u8, sel: rng.next_u32(), m: gen_mutation(&mut rng, p) },
+            _ => Ev::IdFuzz { r, what: *rng.pickv(&p.id_fuzz_kinds), sel: rng.next_u32(), m: gen_mutation(&mut rng, p) },
         };
         evs.push(ev);
     }
